@@ -780,8 +780,15 @@ impl Server {
                             should_close = true;
                         }
                         
-                        // Handle SYNC/PSYNC commands that need connection access
-                        if command == "SYNC" || command == "PSYNC" {
+                        // Handle SYNC/PSYNC commands that need connection access. They hand out the
+                        // whole dataset and register the peer as a replica, so they are subject to the
+                        // same authentication gate as every other command: an unauthenticated
+                        // connection falls through to process_frame and gets NOAUTH.
+                        let authenticated = self.config.password.is_none()
+                            || self.connections.with_connection(id, |conn| {
+                                conn.state == ConnectionState::Authenticated
+                            }).unwrap_or(false);
+                        if (command == "SYNC" || command == "PSYNC") && authenticated {
                             sync_response = Some(self.handle_sync_command(&command, parts, id)?);
                         }
                     }
